@@ -348,6 +348,9 @@ class Executor:
 
     def _clear_shared_memory(self, app_id: int) -> None:
         self._shared_memories.pop(app_id)
+        # Release the key so that the same app ID can be registered again.
+        # (A Host that already holds the SharedMemory object can still read it.)
+        SharedMemoryManager.remove_shared_memory(node_name=self._name, key=app_id)
 
     def _reset_program_counter(self, subroutine_id: int) -> None:
         """Resets the program counter for a given subroutine ID"""
